@@ -334,3 +334,87 @@ Qed.
 
 Lemma qtrunc_integer : forall z, qtrunc (inject_Z z) = inject_Z z.
 Proof. intros. unfold qtrunc, inject_Z. cbn [Qnum Qden]. rewrite Z.quot_1_r. reflexivity. Qed.
+
+(* ---- median: sorting two permutations of a list gives pointwise equal (==) lists ---- *)
+Lemma F2_refl : forall l : list Q, Forall2 Qeq l l.
+Proof. induction l; constructor; auto. reflexivity. Qed.
+Lemma F2_trans : forall a b c : list Q, Forall2 Qeq a b -> Forall2 Qeq b c -> Forall2 Qeq a c.
+Proof.
+  intros a b c H. revert c. induction H; intros c H2; inversion H2; subst; constructor; auto. etransitivity; eauto.
+Qed.
+Lemma qle_bool_false : forall x y, Qle_bool x y = false -> y < x.
+Proof. intros x y H. apply Qnot_le_lt. intro H2. apply Qle_bool_iff in H2. congruence. Qed.
+Lemma qle_bool_compat : forall x y y', y == y' -> Qle_bool x y = Qle_bool x y'.
+Proof.
+  intros x y y' E. destruct (Qle_bool x y) eqn:A, (Qle_bool x y') eqn:B; auto.
+  - apply Qle_bool_iff in A. apply qle_bool_false in B. lra.
+  - apply Qle_bool_iff in B. apply qle_bool_false in A. lra.
+Qed.
+
+Lemma insert_compat : forall x a b, Forall2 Qeq a b -> Forall2 Qeq (insert x a) (insert x b).
+Proof.
+  intros x a b H. induction H as [|y y' a b E H IH]; cbn [insert]. constructor. reflexivity. constructor.
+  rewrite (qle_bool_compat x y y' E). destruct (Qle_bool x y').
+  - constructor. reflexivity. constructor; auto.
+  - constructor; auto.
+Qed.
+
+Lemma insert_two : forall x y t, Forall2 Qeq (if Qle_bool x y then x :: y :: t else y :: x :: t)
+                                            (if Qle_bool y x then y :: x :: t else x :: y :: t).
+Proof.
+  intros. destruct (Qle_bool x y) eqn:A, (Qle_bool y x) eqn:B.
+  - apply Qle_bool_iff in A, B. assert (x == y) by lra. repeat constructor; auto. symmetry; auto. apply F2_refl.
+  - apply F2_refl.
+  - apply F2_refl.
+  - apply qle_bool_false in A, B. lra.
+Qed.
+
+Lemma insert_comm : forall s x y, Forall2 Qeq (insert x (insert y s)) (insert y (insert x s)).
+Proof.
+  induction s as [|z t IH]; intros x y.
+  - cbn [insert]. destruct (Qle_bool x y) eqn:A, (Qle_bool y x) eqn:B; cbn [insert]; rewrite ?A, ?B.
+    + apply Qle_bool_iff in A, B. assert (x == y) by lra. repeat constructor; auto. symmetry; auto.
+    + apply F2_refl.
+    + apply F2_refl.
+    + apply qle_bool_false in A, B. lra.
+  - cbn [insert]. destruct (Qle_bool y z) eqn:Y, (Qle_bool x z) eqn:X; cbn [insert]; rewrite ?X, ?Y.
+    + apply insert_two.
+    + assert (Qle_bool x y = false).
+      { destruct (Qle_bool x y) eqn:A; auto. apply Qle_bool_iff in A, Y. apply qle_bool_false in X. lra. }
+      rewrite H. cbn [insert]. rewrite ?X, ?Y. apply F2_refl.
+    + assert (Qle_bool y x = false).
+      { destruct (Qle_bool y x) eqn:A; auto. apply Qle_bool_iff in A, X. apply qle_bool_false in Y. lra. }
+      rewrite H. cbn [insert]. rewrite ?X, ?Y. apply F2_refl.
+    + constructor. reflexivity. apply IH.
+Qed.
+
+Lemma sortq_perm : forall l l', Permutation l l' -> Forall2 Qeq (sortq l) (sortq l').
+Proof.
+  induction 1.
+  - constructor.
+  - cbn. apply insert_compat. exact IHPermutation.
+  - cbn. apply insert_comm.
+  - eapply F2_trans; eauto.
+Qed.
+
+Lemma F2_length : forall a b : list Q, Forall2 Qeq a b -> List.length a = List.length b.
+Proof. induction 1; cbn; auto. Qed.
+Lemma F2_nth : forall (a b : list Q) k, Forall2 Qeq a b -> nth k a 0 == nth k b 0.
+Proof.
+  intros a b k H. revert k. induction H; intros [|k]; cbn; auto; reflexivity.
+Qed.
+
+Lemma median_perm : forall l l', Permutation l l' -> oq_eq (median_l l) (median_l l').
+Proof.
+  intros l l' H. apply sortq_perm in H. unfold median_l. rewrite (F2_length _ _ H).
+  destruct (List.length (sortq l')) as [|n]; cbn [oq_eq]. exact I.
+  destruct (Nat.even (S n)); cbn [oq_eq].
+  - rewrite (F2_nth _ _ (S n / 2 - 1) H), (F2_nth _ _ (S n / 2) H). reflexivity.
+  - apply F2_nth. exact H.
+Qed.
+
+Lemma agg_perm_all_l : forall op c c', Permutation c c' -> oq_eq (agg_spec op c) (agg_spec op c').
+Proof.
+  intros op c c' H. destruct op; try (apply agg_perm_l; auto; reflexivity).
+  apply vals_perm in H. cbn [agg_spec]. apply median_perm. exact H.
+Qed.
